@@ -82,8 +82,9 @@ class JsonUtil:
                 type ``int``, ``float``, ``bool``, or ``NoneType``.)
         """
         cls = value.__class__
-        if (cls == str or cls == int or cls == float or cls == bool or
-                value is None):
+        if cls == str:
+            return JsonUtil._normalize_str(value)
+        if cls == int or cls == float or cls == bool or value is None:
             return value
 
         if isinstance(value, (list, tuple)):
@@ -96,13 +97,29 @@ class JsonUtil:
         elif isinstance(value, str):
             # Like json.dumps, use the value's contents, even if its class
             # overrides __str__ (as enumerations do)
-            return str.__str__(value)
+            return JsonUtil._normalize_str(str.__str__(value))
         elif isinstance(value, int):
             return int.__int__(value)
         elif isinstance(value, float):
             return float.__float__(value)
         else:
             raise TypeError('The value is not a JSON value')
+
+    @staticmethod
+    def _normalize_str(value):
+        """Return the result of round-tripping the specified string in JSON.
+
+        This is equivalent to ``json.loads(json.dumps(value))``. The
+        result is the same string, except that each surrogate pair is
+        combined into the character it stands for.
+        """
+        try:
+            value.encode('utf-8')
+        except UnicodeEncodeError:
+            # The string contains surrogates
+            return value.encode('utf-16', 'surrogatepass').decode(
+                'utf-16', 'surrogatepass')
+        return value
 
     @staticmethod
     def _key_to_str(key):
@@ -114,9 +131,9 @@ class JsonUtil:
         ``list(json.loads(json.dumps({key: None})).keys())[0]``.
         """
         if key.__class__ == str:
-            return key
+            return JsonUtil._normalize_str(key)
         elif isinstance(key, str):
-            return str.__str__(key)
+            return JsonUtil._normalize_str(str.__str__(key))
         elif isinstance(key, bool):
             if bool(key):
                 return 'true'
